@@ -120,6 +120,61 @@ theorem disabled_silent (b : Broker) (c : Comp) (h : w.enabled c = false) :
   unfold step
   simp [hg]
 
+/-! ### evaluations on a broker that has been used before
+
+Whether a component is invoked is decided by what is PRESENT in the broker: the records an earlier
+evaluation left behind (exceptions, missing-requirements reports, the ghost logs) are no input of the
+next one.  So a second evaluation on a used broker invokes the same components, in the same order, with
+the same results as one evaluation on a fresh broker that holds the same values. -/
+
+/-- one step from two brokers that hold the same values: same values afterwards, the same component
+(if any) is attempted -/
+theorem step_inst_only (b b' : Broker) (c : Comp) (h : b.inst = b'.inst) :
+    (step w inG ss b c).inst = (step w inG ss b' c).inst ∧
+    ∃ l, (step w inG ss b c).attempts = b.attempts ++ l ∧ (step w inG ss b' c).attempts = b'.attempts ++ l := by
+  obtain ⟨i, m, e, a, f⟩ := b
+  obtain ⟨i', m', e', a', f'⟩ := b'
+  simp only at h
+  subst h
+  unfold step
+  by_cases hg : guard w inG i c = true
+  · simp only [hg, if_true]
+    cases hd : w.decl c with
+    | none => exact ⟨by simp, [], by simp, by simp⟩
+    | some d =>
+      simp only
+      cases hr : process w ss c d i <;> simp only [applyResult] <;> exact ⟨by simp, [c], by simp, by simp⟩
+  · have hg' : guard w inG i c = false := by simpa using hg
+    simp only [hg', Bool.false_eq_true, if_false]
+    exact ⟨by simp, [], by simp, by simp⟩
+
+/-- any order of components from two brokers that hold the same values (whatever else they record):
+same values afterwards and the same components attempted, in the same order -/
+theorem second_evaluation (o : List Comp) (b b' : Broker) (h : b.inst = b'.inst) :
+    (runComponents w inG ss o b).inst = (runComponents w inG ss o b').inst ∧
+    ∃ l, (runComponents w inG ss o b).attempts = b.attempts ++ l ∧
+         (runComponents w inG ss o b').attempts = b'.attempts ++ l := by
+  induction o generalizing b b' with
+  | nil => exact ⟨h, [], by simp [runComponents], by simp [runComponents]⟩
+  | cons c o ih =>
+    obtain ⟨hi, l1, h1, h1'⟩ := step_inst_only w inG ss b b' c h
+    obtain ⟨hr, l2, h2, h2'⟩ := ih (step w inG ss b c) (step w inG ss b' c) hi
+    refine ⟨by simpa [runComponents] using hr, l1 ++ l2, ?_, ?_⟩
+    · have : runComponents w inG ss (c :: o) b = runComponents w inG ss o (step w inG ss b c) := by
+        simp [runComponents]
+      rw [this, h2, h1, List.append_assoc]
+    · have : runComponents w inG ss (c :: o) b' = runComponents w inG ss o (step w inG ss b' c) := by
+        simp [runComponents]
+      rw [this, h2', h1', List.append_assoc]
+
+/-- in particular: evaluating on a used broker = evaluating on a fresh broker seeded with its values -/
+theorem second_evaluation_fresh (o : List Comp) (b : Broker) :
+    (runComponents w inG ss o b).inst = (runComponents w inG ss o (Broker.seeded b.inst)).inst ∧
+    ∃ l, (runComponents w inG ss o b).attempts = b.attempts ++ l ∧
+         (runComponents w inG ss o (Broker.seeded b.inst)).attempts = l := by
+  obtain ⟨hi, l, h1, h2⟩ := second_evaluation w inG ss o b (Broker.seeded b.inst) rfl
+  exact ⟨hi, l, h1, by simpa [Broker.seeded] using h2⟩
+
 /-! ### argument binding -/
 
 /-- the positional arguments: one per declared dependency -/
